@@ -174,6 +174,32 @@ pub mod proofs {
         draw::reached();
         contract_parse_total(&d);
     });
+    // Structured: a 64-player legacy info ("dtsf") whose header passes the sanity checks, with a drawn offset and MORE client
+    // records than fit behind it (client index = offset + position, nothing bounds the records in a datagram): the bit set of
+    // received clients must not be shifted out of range
+    #[cfg(not(kani))]
+    harness!(sampled_sb_parse_overfull_64, unwind = 1, {
+        let mut d: Vec<u8> = INFO_6_64.to_vec();
+        let max_clients = [16usize, 32, 64][draw::usize_le(2)];
+        let num_clients = draw::usize_le(max_clients);
+        let offset = draw::usize_le(70);
+        for f in [
+            "12345".to_string(), "0.6.4".to_string(), "name".to_string(), "dm1".to_string(), "DM".to_string(), "0".to_string(),
+            format!("{}", draw::usize_le(num_clients)), format!("{}", max_clients), format!("{}", num_clients), format!("{}", max_clients),
+            format!("{}", offset),
+        ] {
+            d.extend_from_slice(f.as_bytes());
+            d.push(0);
+        }
+        for i in 0..draw::usize_le(72) {
+            for f in [format!("p{}", i), "clan".to_string(), "-1".to_string(), format!("{}", i), "1".to_string()] {
+                d.extend_from_slice(f.as_bytes());
+                d.push(0);
+            }
+        }
+        draw::reached();
+        contract_parse_total(&d);
+    });
     #[cfg(not(kani))]
     harness!(sampled_sb_merge_order, unwind = 1, {
         let n = draw::usize_le(10);
